@@ -208,3 +208,43 @@ def guarded_list_items(fn_node):
                 walk(st.body, guard)
     walk(fn_node.body, None)
     return out
+
+
+def stmt_guards(fn_node):
+    """[(guards, stmt)] for every simple statement of a function, in source order. `guards` is the list of facts that hold whenever the
+    statement runs: (condition source, polarity) pairs in the canonical form of pymodel._nnf, and ("for", target, iterable) entries for
+    enclosing loops. An `if c: return / continue / raise` (an early exit) contributes `not c` to everything after it in the block -
+    so a guard clause and the equivalent nested `if` give the same guards."""
+    from ..pymodel import _nnf
+    out = []
+
+    def exits(body):
+        return bool(body) and isinstance(body[-1], (ast.Return, ast.Continue, ast.Raise, ast.Break))
+
+    def walk(body, guards):
+        guards = list(guards)
+        for st in body:
+            if isinstance(st, ast.If):
+                walk(st.body, guards + _nnf(st.test, True, []))
+                walk(st.orelse, guards + _nnf(st.test, False, []))
+                if exits(st.body) and not st.orelse:
+                    guards = guards + _nnf(st.test, False, [])
+                elif st.orelse and exits(st.orelse) and not exits(st.body):
+                    guards = guards + _nnf(st.test, True, [])
+            elif isinstance(st, (ast.For, ast.AsyncFor)):
+                walk(st.body, guards + [("for", ast.unparse(st.target), ast.unparse(st.iter))])
+                walk(st.orelse, guards)
+            elif isinstance(st, (ast.With, ast.AsyncWith)):
+                walk(st.body, guards)
+            elif isinstance(st, ast.Try):
+                walk(st.body, guards)
+                for h in st.handlers:
+                    walk(h.body, guards)
+                walk(st.orelse, guards)
+                walk(st.finalbody, guards)
+            elif isinstance(st, (ast.FunctionDef, ast.AsyncFunctionDef, ast.ClassDef)):
+                continue
+            else:
+                out.append((guards, st))
+    walk([s for s in fn_node.body if not (isinstance(s, ast.Expr) and isinstance(s.value, ast.Constant))], [])
+    return out
